@@ -64,3 +64,9 @@ Lemma ex_mirrors :
   map (expand 0) (partition_g ex_c [0; 3; 10]) = [[7; 7; 8]; [8; 8; 7; 9; 9; 9; 9]] /\
   option_map ev (rr_g (mk [7; 8] [0; 0; 1; 1; 0] [0; 1; 2; 3; 4; 5])) = Some [0; 2; 4; 5].
 Proof. vm_compute. repeat split. Qed.
+
+Lemma ex_more :
+  ev (add_unmatched Nat.eqb ex_c [0; 4; 8; 10] 1) = [0; 2; 5; 6; 8; 10] /\
+  option_map (fun c => length (ev c)) (align 0 ex_c [0; 4; 10]) = Some 3 /\
+  uio_tok Nat.eqb (fun x : nat => x) [7; 8; 7; 9; 8] = ([7; 8; 9], [0; 1; 0; 2; 1]).
+Proof. vm_compute. repeat split. Qed.
